@@ -1,6 +1,6 @@
 (* C46 -- proofs about the SuperSpeed stream IN endpoint model (Model/SsIn.v).
 
-   Main theorem (ssin_accepted): for every max_packet_size mps with 4 | mps, 8 <= mps, every endpoint
+   Main theorem (ssin_accepted): for every max_packet_size mps with 4 | mps, 4 <= mps <= 1024, every endpoint
    number and sequence-number width, and EVERY input history, the referee of SsIn.v accepts the model's
    interface trace (or the environment broke its contract first).                                   *)
 From Coq Require Import NArith ZArith List Bool Lia ZifyBool ZifyN.
@@ -115,7 +115,7 @@ Proof. intros. rewrite <- (witems_length ws fill). apply skipn_all. Qed.
 (* 2. The invariant relating the endpoint model and the referee                                *)
 Section Inv.
   Variables (mps ep sb : N).
-  Hypothesis Hmps8 : 8 <= mps.
+  Hypothesis Hmps8 : 4 <= mps.
   Hypothesis Hmps4 : mps mod 4 = 0.
   Hypothesis Hmps1k : mps <= 1024.
 
@@ -1083,7 +1083,7 @@ End Bridge.
 
 (* MAIN THEOREM, on packed interface words: whatever produces the same output words as the model is
    accepted by the referee *)
-Theorem ssin_accepted_io : forall mps ep sb, 8 <= mps -> mps mod 4 = 0 -> mps <= 1024 -> sb <= 5 ->
+Theorem ssin_accepted_io : forall mps ep sb, 4 <= mps -> mps mod 4 = 0 -> mps <= 1024 -> sb <= 5 ->
   forall tr outs, outs = run (ss_step mps ep sb) ss_init tr ->
   ref_accepts_io mps ep sb ref_init (combine tr outs) = true.
 Proof.
